@@ -53,6 +53,9 @@ const (
 // boundedProgram builds the program of one family.  n is the family's size parameter.
 func boundedProgram(fam string, n int64) string {
 	rep := func(s string) string { return strings.Repeat(s, int(n)) }
+	if p, ok := boundedExtProgram(fam, n); ok { // library functions, builtins, macros: bounded_ext.go
+		return p
+	}
 	switch fam {
 	// --- non-terminating loops
 	case "loop-empty":
@@ -242,7 +245,7 @@ func boundedChild(args []string) int {
 // waiting longer (or repeating many of them) only delays the report
 func boundedQuickFamily(fam string) bool {
 	return strings.HasPrefix(fam, "degen-") || strings.HasPrefix(fam, "wrap-") || strings.HasPrefix(fam, "huge-") ||
-		strings.HasPrefix(fam, "loop-") || fam == "sleep"
+		strings.HasPrefix(fam, "loop-") || fam == "sleep" || boundedExtQuick(fam)
 }
 
 func boundedKillAfterFor(fam string) time.Duration {
@@ -470,6 +473,7 @@ func boundedGen(tier string, r *rng, emit func(string)) {
 		// waiting
 		add("sleep", 10, pickD(), 100)
 		add("sleep", 10, 0, deadlines[i%len(deadlines)])
+		boundedExtGen(r, thorough, add) // library functions, builtins, macros: bounded_ext.go
 	}
 	// run: up to boundedWorkers children at a time
 	type job struct {
